@@ -180,7 +180,14 @@ func (v array_[V]) SetValues(index int, values Sequential[V]) {
 	// The full index range must be in bounds.
 	var size = values.GetSize()
 	var first = v.toZeroBased(index)
-	var last = v.toZeroBased(index+size-1) + 1
+	var last = first + size
+	if last > len(v) {
+		panic(fmt.Sprintf(
+			"The specified index is outside the allowed ranges [-%v..-1] and [1..%v]: %v",
+			len(v),
+			len(v),
+			last))
+	}
 	copy(v[first:last], values.AsArray())
 }
 
